@@ -744,7 +744,9 @@ func ruleC14Empty(c *Ctx) {
 
 // ---- DIRECTION -------------------------------------------------------------------------------
 
-func ruleC14Direction(c *Ctx, cts []cursorType) { ruleCursorDirection(c, cts, "C14.DIRECTION", "C14.DIRPARAM") }
+func ruleC14Direction(c *Ctx, cts []cursorType) {
+	ruleCursorDirection(c, cts, "C14.DIRECTION", "C14.DIRPARAM")
+}
 
 func ruleCursorDirection(c *Ctx, cts []cursorType, rule, paramRule string) {
 	p := c.P
